@@ -721,6 +721,33 @@ func init() {
 		Edits: []Edit{{File: "cmds/server/handlers/authen_pap.go", Old: `	c := a.GetUser(string(body.User))
 	if c == nil {`, New: `	c := a.GetUser(string(body.User))
 	if c == nil && len(body.Port) > 250 {`}}})
+	addMutant(Mutant{Name: "c14-private-decode-helper-nil-unchecked", Props: []string{"C14"}, Rule: "R-NILCHECK", KeySub: "getPassword",
+		Why: "the password state gets the body from an unexported helper that returns nil when the packet is not a CONTINUE, and uses it without a test (the helper is folded into the inlined view: the finding must survive there)",
+		Edits: []Edit{{File: "cmds/server/handlers/authen_ascii.go", Old: `	var body tq.AuthenContinue
+	if err := tq.Unmarshal(request.Body, &body); err != nil {
+		authenASCIIGetPasswordUnexpectedPacket.Inc()
+		authenASCIIGetPasswordAuthenError.Inc()
+		response.ReplyWithContext(
+			request.Context,
+			tq.NewAuthenReply(
+				tq.SetAuthenReplyStatus(tq.AuthenStatusError),
+				tq.SetAuthenReplyServerMsg("expected authenticate continue packet for AuthenStatusGetPass"),
+			),
+			a.recorderWriter,
+		)
+		return
+	}
+	// missing password`, New: `	body := a.continueOf(request)
+	// missing password`}, {File: "cmds/server/handlers/authen_ascii.go", Old: `// AuthenticateContinueStop looks for flags`, New: `// continueOf decodes the CONTINUE of this request, nil when it is something else
+func (a *AuthenticateASCII) continueOf(request tq.Request) *tq.AuthenContinue {
+	var body tq.AuthenContinue
+	if err := tq.Unmarshal(request.Body, &body); err != nil {
+		return nil
+	}
+	return &body
+}
+
+// AuthenticateContinueStop looks for flags`}}})
 	addMutant(Mutant{Name: "c14-asv-without-negative-check", Props: []string{"C14"}, Rule: "R-BOUNDS", KeySub: "ASV",
 		Why: "Arg.ASV slices at the separator index without handling 'not found'",
 		Edits: []Edit{{File: "authorize_fields.go", Old: `	if i < 0 {
